@@ -49,11 +49,14 @@ def rows():
         for m in ("commit", "open"):
             out.append(("%s.%s" % (sk, m), dict(name=m, self_adt=S[sk]["adt"], trait=PC), S[sk]["adt"], variants,
                         [R[m]["polys"]], MSM))
+            # each of these refusals relates the polynomial to the key: it looks at both
+            out.append(("%s.%s#key-and-poly" % (sk, m), dict(name=m, self_adt=S[sk]["adt"], trait=PC), S[sk]["adt"], variants,
+                        [[R[m]["ck"]], [R[m]["polys"]]], None))
     for sk in ("marlin_kzg10", "sonic_kzg10", "ipa", "marlin_pst13"):
         out.append(("%s.trim" % sk, dict(name="trim", self_adt=S[sk]["adt"], trait=PC), S[sk]["adt"],
                     ["TrimmingDegreeTooLarge"], [[1], [2]], None))
     out.append(("sonic_kzg10.trim#bounds", dict(name="trim", self_adt=S["sonic_kzg10"]["adt"], trait=PC), S["sonic_kzg10"]["adt"],
-                ["UnsupportedDegreeBound"], [2, 4], None))
+                ["UnsupportedDegreeBound"], [[2], [4]], None))
     P13 = S["marlin_pst13"]["adt"]
     out.append(("marlin_pst13.setup", dict(name="setup", self_adt=P13, trait=PC), P13,
                 ["InvalidNumberOfVariables", "DegreeIsZero"], [1, 2], None))
